@@ -163,6 +163,16 @@ def ssa_toplevel(fnode):
     (`lits = list(lits)` followed by uses of lits  ==  `work = list(lits)` followed by uses of work).  Control flow at that level is a
     straight line, so which binding a use sees is decided by position."""
     f = copy.deepcopy(fnode)
+    # if c: x = A      (x a parameter, c and A side-effect free, at the top level)      ==      x = A if c else x
+    pnames = {a.arg for a in f.args.posonlyargs + f.args.args + f.args.kwonlyargs}
+    for i, st in enumerate(f.body):
+        if isinstance(st, ast.If) and not st.orelse and len(st.body) == 1 and isinstance(st.body[0], ast.Assign) and \
+                len(st.body[0].targets) == 1 and isinstance(st.body[0].targets[0], ast.Name) and st.body[0].targets[0].id in pnames and \
+                is_pure(st.test) and is_pure(st.body[0].value):
+            nm = st.body[0].targets[0].id
+            new = ast.Assign(targets=[ast.Name(id=nm, ctx=ast.Store())],
+                             value=ast.IfExp(test=st.test, body=st.body[0].value, orelse=ast.Name(id=nm, ctx=ast.Load())))
+            f.body[i] = ast.fix_missing_locations(ast.copy_location(new, st))
     params = {a.arg for a in f.args.posonlyargs + f.args.args + f.args.kwonlyargs}
     if f.args.vararg:
         params.add(f.args.vararg.arg)
@@ -192,7 +202,7 @@ def ssa_toplevel(fnode):
                     bad.add(x.id)          # read or written by a nested definition: late binding, keep one name
     cands = {n for n, c in top.items() if total.get(n, 0) == c and n not in bad and n not in bad_for and (c >= 2 or (n in params and c >= 1))}
     if not cands:
-        return fnode
+        return f
     version = {}
 
     class R(ast.NodeTransformer):
@@ -815,8 +825,21 @@ class Normaliser:
         """a local bound once to a side-effect free expression that gives the same value wherever it is evaluated later"""
         if name in self.params or name in self.declared_global or self.assign_count.get(name, 0) != 1:
             return False          # (bound more than once: kept as an assignment)
+        value = self._inline_calls(copy.deepcopy(value))          # what the expression is once local / module helpers are written out
         if not self.pure(value):
             return False
+        # list(p) / sorted(p) / sum(p) .. of a parameter (or anything that may be an iterator) uses it up: such a value is written out
+        # only where it is used exactly once
+        consuming = any(isinstance(n, ast.Call) and _src(n.func) in ("list", "tuple", "sorted", "set", "frozenset", "sum", "min", "max", "any",
+                                                                       "all", "dict", "enumerate", "zip", "iter", "next", "map", "filter")
+                        and any(isinstance(a, ast.Name) and (a.id in self.params or not self.bound_once(a.id)) for a in n.args)
+                        for n in ast.walk(value)) or any(isinstance(n, (ast.ListComp, ast.SetComp, ast.DictComp, ast.GeneratorExp)) and
+                                                          any(isinstance(g.iter, ast.Name) and g.iter.id in self.params for g in n.generators)
+                                                          for n in ast.walk(value))
+        if consuming:
+            uses = sum(1 for n in _walk_no_defs(self.f) if isinstance(n, ast.Name) and n.id == name and isinstance(n.ctx, ast.Load))
+            if uses != 1:
+                return False
         fresh = any(isinstance(n, (ast.Call, ast.List, ast.Dict, ast.Set, ast.ListComp, ast.SetComp, ast.DictComp, ast.BinOp, ast.JoinedStr))
                     for n in ast.walk(value))
         if fresh and name in self.direct_mut:
